@@ -47,12 +47,13 @@ type txn struct {
 	start, commit uint64
 }
 type config struct {
-	size    int
-	pat     []int // desired slot per key id (only meaningful modulo real slot count)
-	txns    []txn
-	recTS   []uint64 // timestamps offered to the external recycle step (empty: no such step)
-	recMax  int
-	noMacro bool
+	size      int
+	pat       []int // desired slot per key id (only meaningful modulo real slot count)
+	txns      []txn
+	recTS     []uint64 // timestamps offered to the external recycle step (empty: no such step)
+	recMax    int
+	noMacro   bool
+	withClose bool // the client may call Close() (LClose edge); UnLock afterwards drops the lock
 }
 
 func (c *config) spec() string {
@@ -75,7 +76,11 @@ func (c *config) spec() string {
 	if c.noMacro {
 		nm = 1
 	}
-	return fmt.Sprintf("size=%d;pat=%s;txns=%s;rec=%s;recmax=%d;nomacro=%d", c.size, strings.Join(ps, ","), strings.Join(ts, "/"), strings.Join(rs, ","), c.recMax, nm)
+	cl := 0
+	if c.withClose {
+		cl = 1
+	}
+	return fmt.Sprintf("size=%d;pat=%s;txns=%s;rec=%s;recmax=%d;nomacro=%d;close=%d", c.size, strings.Join(ps, ","), strings.Join(ts, "/"), strings.Join(rs, ","), c.recMax, nm, cl)
 }
 
 func parseSpec(s string) *config {
@@ -120,6 +125,8 @@ func parseSpec(s string) *config {
 			c.recMax, _ = strconv.Atoi(kv[1])
 		case "nomacro":
 			c.noMacro = kv[1] == "1"
+		case "close":
+			c.withClose = kv[1] == "1"
 		}
 	}
 	return c
@@ -170,6 +177,7 @@ type sim struct {
 	sk, si  int
 	wl      []int
 	recUsed int
+	closed  bool
 	// oracle bookkeeping
 	relLog   []relEv
 	liveMax  map[int]uint64
@@ -286,6 +294,9 @@ func (s *sim) enabled() []string {
 		}
 	case skTrig:
 		en = append(en, "t")
+	}
+	if s.cfg.withClose && !s.closed {
+		en = append(en, "x")
 	}
 	if s.recUsed < s.cfg.recMax {
 		for sl := 0; sl < s.lat.VNumSlots(); sl++ {
@@ -432,9 +443,16 @@ func (s *sim) apply(op string) (res string) {
 		i, _ := strconv.Atoi(arg)
 		c := s.unlockCommit(i)
 		s.locks[i].SetCommitTS(c)
+		if s.closed { // UnLock after Close(): nothing is sent
+			s.pcs[i] = 'X'
+			return strconv.FormatUint(c, 10)
+		}
 		s.pcs[i] = 'U'
 		s.ch = append(s.ch, i)
 		return strconv.FormatUint(c, 10)
+	case 'x':
+		s.closed = true
+		return "-"
 	case 'p':
 		i := s.ch[0]
 		s.ch = append([]int(nil), s.ch[1:]...)
@@ -741,7 +759,7 @@ func (s *sim) oracles(nEnabled int) {
 		s.npass["no_lost_wakeup"]++
 	}
 	// C17_no_deadlock: a quiescent state has only finished transactions
-	if nEnabled == 0 {
+	if nEnabled == 0 && !s.closed {
 		fin := true
 		for i, p := range s.pcs {
 			if p != 'R' {
@@ -759,7 +777,7 @@ func (s *sim) oracles(nEnabled int) {
 func progressEdges(en []string) int {
 	n := 0
 	for _, e := range en {
-		if e[0] != 'c' {
+		if e[0] != 'c' && e[0] != 'x' {
 			n++
 		}
 	}
@@ -809,7 +827,7 @@ func (e *explorer) dfs(path []string, en []string) {
 		e.edges++
 		fmt.Fprintf(out, "N\t%s\t=>\t%s\t|\t%s\n", o, res, d)
 		cen := c.enabled()
-		vk := d + "#" + strconv.Itoa(c.recUsed)
+		vk := d + "#" + strconv.Itoa(c.recUsed) + fmt.Sprint(c.closed)
 		first := !e.visited[vk]
 		if first {
 			c.oracles(progressEdges(cen))
@@ -1002,6 +1020,7 @@ func main() {
 							continue
 						}
 						c := &config{size: sizes[pi], pat: pats[pi], txns: []txn{{shuffled(rng, a), ta.s, ta.c}, {shuffled(rng, b), tb.s, tb.c}}}
+						c.withClose = thorough || n%4 == 0
 						runDFS(fmt.Sprintf("d2-%d", n), c, 200000)
 						n++
 					}
@@ -1095,6 +1114,29 @@ func main() {
 		c := &config{size: 1 + rng.Intn(2), pat: []int{0, 0, 0, 0, 0, 1}, txns: tx, recTS: []uint64{uint64(3+rng.Intn(4)) * unit}, recMax: 1, noMacro: true}
 		runDFS(fmt.Sprintf("dr-%d", j), c, 20000)
 	}
+	// DRX: recycle, enumerated: 6 keys in ONE slot (count reaches 5: in-line recycle), physical timestamps on both sides
+	// of the 2-minute expiry (unit = 70 s), external recycle once; T2 (keys 0,3) may start before or after the others
+	{
+		type so struct{ s, c uint64 }
+		var os []so
+		for _, st := range []uint64{1 * unit, 4 * unit} {
+			os = append(os, so{st + 1, 0}, so{st + 1, st + 2}, so{st + 1, st + 2*unit + 2})
+		}
+		j := 0
+		for _, o0 := range os {
+			for _, o1 := range os {
+				for _, s2 := range []uint64{1*unit + 5, 5 * unit} {
+					j++
+					if !thorough && (j+int(seed))%18 != 0 {
+						continue
+					}
+					tx := []txn{{[]int{0, 1, 2}, o0.s, o0.c}, {[]int{3, 4, 5}, o1.s + 1, o1.c + 1*boolU(o1.c)}, {[]int{0, 3}, s2, 0}}
+					c := &config{size: 1, pat: []int{0, 0, 0, 0, 0, 0}, txns: tx, recTS: []uint64{6 * unit}, recMax: 1, noMacro: true}
+					runDFS(fmt.Sprintf("drx-%d", j), c, 60000)
+				}
+			}
+		}
+	}
 	// walks: bigger configurations, random schedules
 	nw := 300
 	if thorough {
@@ -1128,6 +1170,13 @@ func main() {
 		runWalk(fmt.Sprintf("w-%d", j), c, rng, nil)
 	}
 	summary()
+}
+
+func boolU(c uint64) uint64 {
+	if c > 0 {
+		return 1
+	}
+	return 0
 }
 
 func summary() {
